@@ -86,7 +86,12 @@ func c18run(c c18cfg) (r c18result) {
 	}()
 
 	var err error
-	opt := Opt{DialAddr: c.Dial, TLSConfig: &tls.Config{RootCAs: c18roots}}
+	// every upstream of this process is built from the SAME *tls.Config object: NewUpstream must
+	// not leave anything of one upstream (e.g. its server name) behind in the caller's config
+	if c18sharedTLS == nil {
+		c18sharedTLS = &tls.Config{RootCAs: c18roots}
+	}
+	opt := Opt{DialAddr: c.Dial, TLSConfig: c18sharedTLS}
 	switch c.Via {
 	case "socks5":
 		opt.Socks5 = c18socksAddr
@@ -376,11 +381,13 @@ func c18sig(r c18result, v c18viol) string {
 
 type c18space struct{ schemes, hosts, ports, dials, paths, vias []string }
 
+var c18sharedTLS *tls.Config
+
 func c18spaceFor(tier string) c18space {
 	sp := c18space{
 		schemes: []string{"", "udp", "tcp", "tcp+pipeline", "tls", "tls+pipeline", "https", "h3", "quic", "doq"},
 		hosts:   []string{"127.0.0.1", "[::1]", "::1", "[2001:db8::1]", "[2001:db8:0:0:0:0:0:1]", "dns.example.org"},
-		ports:   []string{"", "53", "5353", "65535"},
+		ports:   []string{"", "53", "5353", "65535", "65536", "65589"},
 		dials:   []string{"", "192.0.2.7", "192.0.2.7:8853", "2001:db8::7", "[2001:db8::7]:8853", "dial.example.net", "dial.example.net:8853"},
 		paths:   []string{"", "/dns-query"},
 		vias:    []string{"", "socks5", "bootstrap"},
@@ -388,7 +395,7 @@ func c18spaceFor(tier string) c18space {
 	if tier == "thorough" {
 		sp.schemes = append(sp.schemes, "ftp")
 		sp.hosts = append(sp.hosts, "192.0.2.1", "2001:db8::1", "2001:db8:0:0:0:0:0:1", "[2001:DB8::1]", "DNS.Example.ORG", "localhost")
-		sp.ports = append(sp.ports, "1", "443", "853", "65536")
+		sp.ports = append(sp.ports, "1", "443", "853", "66389")
 		sp.dials = append(sp.dials, "192.0.2.7:53", "2001:db8:0:0:0:0:0:7", "[2001:db8::7]:65535", "Dial.Example.NET", "dial.example.net:1")
 	}
 	return sp
